@@ -519,6 +519,7 @@ func finish(p Prop, tier string, seed int64, a *agg, start time.Time, work strin
 		}
 	}
 	observedKnown := map[string]int{}
+	knownCases := map[string][]any{}
 	type unl struct {
 		v    Violation
 		path string
@@ -528,6 +529,11 @@ func finish(p Prop, tier string, seed int64, a *agg, start time.Time, work strin
 	for _, v := range a.violations {
 		if _, ok := knownByID[v.Identity]; ok {
 			observedKnown[v.Identity]++
+			if len(knownCases[v.Identity]) < 5 {
+				if m, ok := v.Case.(map[string]any); ok {
+					knownCases[v.Identity] = append(knownCases[v.Identity], m["index"])
+				}
+			}
 			continue
 		}
 		if seen[v.Identity] {
@@ -570,6 +576,7 @@ func finish(p Prop, tier string, seed int64, a *agg, start time.Time, work strin
 		"observed":                a.stats,
 		"inconclusive_cases":      totalInconclusive,
 		"known_findings_observed": observedKnown,
+		"known_findings_cases":    knownCases,
 	}
 	if len(a.inconclusive) > 0 {
 		lim := a.inconclusive
